@@ -5,7 +5,7 @@ MAXW = (1 << 64) - 1
 
 class Case:
     def __init__(self, cid, kind, vals=None, start=0, stop=0, script=None, hint="inexact", adapt="none",
-                 threads=None, owner="drop", sched=None, frozen=None, iters=1, mode="release", clonepanic=None, droppanic=None, zst=False, tags=None, pod=False, spare=0, inpanic=None, clonepoint=False, rawskip=False, clonefrom=False, relocate=None, zstiter=False, reenter=None):
+                 threads=None, owner="drop", sched=None, frozen=None, iters=1, mode="release", clonepanic=None, droppanic=None, zst=False, tags=None, pod=False, spare=0, inpanic=None, clonepoint=False, rawskip=False, clonefrom=False, relocate=None, zstiter=False, reenter=None, nested=False):
         self.id = cid
         self.kind = kind            # slice vecref arrref vec array range iter iterref
         self.vals = list(vals or [])
@@ -28,6 +28,7 @@ class Case:
         self.relocate = relocate        # single-thread cases: the iterator value is moved to another address before thread 0's k-th operation
         self.zstiter = zstiter          # kind iter: the wrapped iterator is a zero-sized *type* (its state lives outside the value)
         self.reenter = reenter          # kinds iter / iterref: the k-th call of the wrapped `next()` queries the concurrent iterator around it
+        self.nested = nested            # kind iter: the iterator under test wraps `values()` of an inner concurrent iterator over the probe
         self.rawskip = rawskip          # `skip` = the public `AtomicIter::early_exit` instead of `skip_to_end`
         self.clonepoint = clonepoint    # `Clone::clone` of an element is a scheduling point (impl-only cases)
         self.inpanic = list(inpanic or [])   # threads whose ops run inside a destructor during an unrelated unwinding
@@ -126,6 +127,8 @@ class Case:
             L.append("clonepoint")
         if self.rawskip:
             L.append("rawskip")
+        if self.nested:
+            L.append("nested")
         if self.reenter is not None:
             L.append("reenter %s" % str(self.reenter).replace(":", " "))
         if self.zstiter:
@@ -206,6 +209,8 @@ def parse_cases(text):
             cur.clonepoint = True
         elif toks[0] == "rawskip":
             cur.rawskip = True
+        elif toks[0] == "nested":
+            cur.nested = True
         elif toks[0] == "reenter":
             cur.reenter = int(toks[1]) if len(toks) == 2 else "%s:%s" % (toks[1], toks[2])
         elif toks[0] == "zstiter":
